@@ -54,7 +54,10 @@ def cached_template(
     template_cls = template_cls or Template
     template_cls_path = get_import_path(template_cls)
     engine_cls_path = get_import_path(engine.__class__) if engine else None
-    cache_key = (template_cls_path, template_string, engine_cls_path)
+    # NOTE: `name` and `origin` are part of the key, because they are baked into the compiled Template:
+    #       relative paths in `{% include %}` / `{% extends %}` are resolved against the origin at compile time.
+    origin_key = (origin.name, origin.template_name) if origin else None
+    cache_key = (template_cls_path, template_string, engine_cls_path, name, origin_key)
 
     maybe_cached_template: Optional[Template] = template_cache.get(cache_key)
     if maybe_cached_template is None:
